@@ -1,6 +1,7 @@
 package vc
 
 import (
+	"crypto/sha256"
 	"bytes"
 	"context"
 	"fmt"
@@ -146,19 +147,20 @@ func (s *Session) DischargeAll(results []*FuncResult, sub string) {
 	var wg sync.WaitGroup
 	sem := make(chan struct{}, s.Parallel)
 	var mu sync.Mutex
-	texts := map[string]*Obligation{}
+	texts := map[[32]byte]*Obligation{}
 	for i, o := range jobs {
-		text, axioms := s.Ex.Prelude.Emit(&Query{Hyps: o.Hyps, Goal: o.Goal}, false)
+		text, axioms := s.Ex.Prelude.Emit(&Query{Hyps: o.Hyps, Goal: o.Goal, NoAxioms: o.NoAxioms, Opaque: o.Opaque}, false)
 		o.Axioms = axioms
 		// identical queries are solved once
-		if prev, ok := texts[text]; ok {
+		th := sha256.Sum256([]byte(text))
+		if prev, ok := texts[th]; ok {
 			o.Detail = o.Detail + ""
 			defer func(o, prev *Obligation) {
 				o.Status, o.Solver, o.Time, o.File = prev.Status, prev.Solver+" (shared query)", 0, prev.File
 			}(o, prev)
 			continue
 		}
-		texts[text] = o
+		texts[th] = o
 		name := fmt.Sprintf("%04d_%s", i, o.FullName())
 		file, err := WriteQuery(dir, name, text)
 		if err != nil {
@@ -284,7 +286,7 @@ func (s *Session) VacuityCheck(results []*FuncResult, sub string) []*CoverResult
 					cr.Tried++
 					continue
 				}
-				text, _ := s.Ex.Prelude.Emit(&Query{Hyps: o.Hyps, Goal: o.Goal}, false)
+				text, _ := s.Ex.Prelude.Emit(&Query{Hyps: o.Hyps, Goal: o.Goal, NoAxioms: o.NoAxioms, Opaque: o.Opaque}, false)
 				file, err := WriteQuery(dir, fmt.Sprintf("%03d_%03d_%s", gi, i, o.FullName()), text)
 				if err != nil {
 					continue
